@@ -52,7 +52,8 @@ type Exec struct {
 	Events    int
 	dead      bool // the node panicked inside a mutating call; the history is abandoned
 	// Stub makes the HARNESS misreport the node on purpose (selftest of the binding):
-	// "lose-accepted": the last reported v2 transaction is hidden; "lookup-absent": found -> absent
+	// "lose-accepted": the last reported v2 transaction is hidden; "lookup-absent": found -> absent;
+	// "rebase-identity": a successful rebase is reported with the caller's old proofs
 	Stub string
 }
 
@@ -1152,6 +1153,9 @@ func (x *Exec) Rebase(set []int, from, to int, corrupt string) {
 		}()
 		out, err = x.N.CM.UpdateV2TransactionSet(txns, fromIdx, toIdx)
 	}()
+	if x.Stub == "rebase-identity" && err == nil && panicked == "" && from != to {
+		out = txns // selftest: pretend the node handed the set back with its old proofs
+	}
 	r := "ok"
 	detail := ""
 	if panicked != "" {
